@@ -162,4 +162,21 @@ let () =
              | Ok f -> f | _ -> (fun _ -> Err))
           else C07CodecModel.hevc_prot_func (nalus_of spss) (nalus_of ppss) (scheme_of sch) in
         fragment_case id sch protf key iv cb sb samples before trafc obs
+      | ["T"; id; sch; codec; spss; ppss; key; iv; cb; sb; before; traf; after; samples; obs] ->
+        (* EncryptFragment over the bytes of the fragment *)
+        let protf =
+          if codec = "u" then audio_protect_ranges
+          else if codec = "a" then
+            (match C07CodecModel.avc_prot_func (nalus_of spss) (nalus_of ppss) (scheme_of sch) with
+             | Ok f -> f | _ -> (fun _ -> Err))
+          else C07CodecModel.hevc_prot_func (nalus_of spss) (nalus_of ppss) (scheme_of sch) in
+        let boxes x = if x = "-" then [] else samples_of x in
+        let f = { C07TrafModel.bf_before = boxes before; bf_traf = boxes traf; bf_after = boxes after;
+                  bf_samples = samples_of samples } in
+        let r = C07TrafModel.encrypt_fragment_bytes e d protf (scheme_of sch) (bytes_of_hex key) (bytes_of_hex iv)
+            (n_of_int (int_of_string cb)) (n_of_int (int_of_string sb)) f in
+        let model = match r with
+          | Ok g -> S.concat "|" ["ok"; hexlist g.C07TrafModel.bf_traf; hexlist g.C07TrafModel.bf_samples]
+          | Err -> "err" | Panic -> "panic" | OutOfFuel -> "outoffuel" in
+        check id "fragment bytes" model obs
       | _ -> Printf.printf "BADLINE %s\n" (if S.length line > 200 then S.sub line 0 200 else line))
